@@ -91,6 +91,8 @@ def cases(tier, seed):
         dict(name="connect-3x3x4", kind="connect", shape=(3, 3, 4)),
         dict(name="connect-4x3x3", kind="connect", shape=(4, 3, 3)),
         dict(name="connect-4x4x3", kind="connect", shape=(4, 4, 3)),
+        dict(name="connect-5x5x3", kind="connect", shape=(5, 5, 3)),
+        dict(name="connect-4x4x4", kind="connect", shape=(4, 4, 4)),
         dict(name="module-connect-3x3x3-bg1", kind="mod_connect", shape=(3, 3, 3), bg=1),
     ]
 
@@ -356,6 +358,35 @@ def _cut_lemmas(c, cuts, C, assume, budget_ms=20000):
     return lem
 
 
+def _chunks(shape):
+    """cells grouped into obligations: one per cell on small designs, ~16 groups on large ones."""
+    cells = list(np.ndindex(*shape))
+    k = 1 if len(cells) <= 48 else -(-len(cells) // 16)
+    return [cells[i:i + k] for i in range(0, len(cells), k)]
+
+
+def _gname(g):
+    return str(list(g[0])) if len(g) == 1 else f"{list(g[0])}..{list(g[-1])}"
+
+
+def _prove_complete(c, name, hist, o, n_sweeps, replay, key):
+    """obligation  "every connected cell is kept":  R_{#cells-1} subset-of o  (one query over all cells).  The iterates
+    R_k of the oracle grow with k, so a witness of  R_k[c] and not o[c]  for a small k is a witness for the obligation
+    as well: the query is asked with increasing depth and the first replay-confirmed witness is reported; the obligation
+    only counts as discharged by the unsat verdict at full depth."""
+    last = len(hist) - 1
+    depths = sorted({min(d, last) for d in (2 * n_sweeps, 3 * n_sweeps + 1, 4 * n_sweeps + 2)} | {last})
+    for d in depths:
+        snap = (c.obligations, c.discharged, c.trivial, len(c.samples))
+        R = hist[d]
+        ok = c.prove(name if d == last else f"{name}(oracle depth {d})", _all(z3.Implies(sc.toz(R[idx]), sc.toz(o[idx])) for idx in np.ndindex(*o.shape)), (), replay, key)
+        if not ok or d == last:
+            return ok
+        c.obligations, c.discharged, c.trivial = snap[0], snap[1], snap[2]
+        del c.samples[snap[3]:]
+    return True
+
+
 def _prove_upper(c, name, cell, hint_cell, full_cell, replay, key):
     """obligation  cell => full_cell  ("only connected cells").  ``full_cell`` is the (#cells-1)-step iterate of the oracle;
     ``hint_cell`` is an earlier iterate of the same monotone chain (R_k => R_{k+1} holds by construction of reach_sym), so
@@ -406,20 +437,22 @@ def _flood_case(c, case, what, fn, seed, invert):
 
     o, rp = outs[0], replay_for(0)
     C, closed = closed_set(mask, seed, "C")
-    closed = closed + _cut_lemmas(c, it.cuts, C, closed)
-    for idx in np.ndindex(*shape):
-        c.prove(f"{what}:sound{list(idx)}", z3.Implies(sc.toz(o[idx]), C[idx]), closed, rp, key=f"{what}:keeps_unconnected")
+    lem = _cut_lemmas(c, it.cuts, C, closed)
+    # two conjunctions instead of thousands of single assumptions (keeps the per-query bookkeeping of Case.prove cheap)
+    closed = [z3.And(*closed)] + ([z3.And(*lem)] if lem else [])
+    groups = _chunks(shape)
+    for g in groups:
+        c.prove(f"{what}:sound{_gname(g)}", _all(z3.Implies(sc.toz(o[idx]), C[idx]) for idx in g), closed, rp, key=f"{what}:keeps_unconnected")
     kdef = f"{what}:one_layer_all_removed" if (cls == "one_layer" and not invert) else None
-    for idx in np.ndindex(*shape):
-        c.prove(f"{what}:near{list(idx)}", z3.Implies(sc.toz(near[idx]), sc.toz(o[idx])), (), rp,
+    for g in groups:
+        c.prove(f"{what}:near{_gname(g)}", _all(z3.Implies(sc.toz(near[idx]), sc.toz(o[idx])) for idx in g), (), rp,
                 key=kdef or f"{what}:drops_connected_within_n_steps")
     if kdef is None:
-        c.prove(f"{what}:complete", _all(z3.Implies(sc.toz(full[idx]), sc.toz(o[idx])) for idx in np.ndindex(*shape)), (), rp,
-                key=f"{what}:too_few_sweeps")
+        _prove_complete(c, f"{what}:complete", hist, o, n_sweeps, rp, f"{what}:too_few_sweeps")
     for k in range(1, len(outs)):
         # compute_polymer_connection itself (second output of the traced function) marks exactly the kept cells
-        for idx in np.ndindex(*shape):
-            c.prove(f"compute_polymer_connection==kept{list(idx)}", sc.toz(outs[k][idx]) == sc.toz(o[idx]), (), replay_for(k),
+        for g in groups:
+            c.prove(f"compute_polymer_connection==kept{_gname(g)}", _all(sc.toz(outs[k][idx]) == sc.toz(o[idx]) for idx in g), (), replay_for(k),
                     key="compute_polymer_connection:differs_from_kept_material")
     o = outs[0]
     # vacuity twins: the operation can remove something and can keep something away from the seed cells
